@@ -72,13 +72,14 @@ _MISSING = object()
 
 
 def _key_compatible(k, kk):
+    # keys stored earlier may themselves be symbolic (their hash was taken on a concretized value, so d[kk] still finds them)
     tk = type(k)
     if tk is SymInt or tk is SymBool:
-        return type(kk) in (int, bool)
+        return type(kk) in (int, bool, SymInt, SymBool)
     if tk is SymStr:
-        return type(kk) is str and len(kk) == len(k)
+        return type(kk) in (str, SymStr) and len(kk) == len(k)
     if tk in (SymBytes, SymByteArray):
-        return type(kk) is bytes and len(kk) == len(k)
+        return type(kk) in (bytes, SymBytes) and len(kk) == len(k)
     return False
 
 
